@@ -38,5 +38,5 @@ json.dump({"property":prop,"source":"independent sub-agent given only the proper
 PY
   echo "stored $OUT"
 else
-  echo "NOT CONFIRMED"; tail -5 /tmp/cm.clean.log /tmp/cm.suite.log /tmp/cm.mut.log; exit 1
+  echo "NOT CONFIRMED"; tail -n 5 /tmp/cm.clean.log; tail -n 5 /tmp/cm.suite.log; tail -n 8 /tmp/cm.mut.log; exit 1
 fi
